@@ -34,7 +34,7 @@ def load_config(probe=None):
     cand = candidates()
     text = ''.join('cfgword %s\ncfgbuiltin %s\n' % (hx(w), hx(w)) for w in cand)
     rc, out, err = C.run_exe(probe, [], text)
-    flags = [l for l in out.splitlines() if l.startswith('@')]
+    flags = [l for l in out.splitlines() if l.startswith('@reserved=') or l.startswith('@builtin=')]
     if rc != 0 or len(flags) != 2 * len(cand):
         raise C.BuildError('cannot determine the reserved words by execution: ' + err[-1500:])
     words = [w for i, w in enumerate(cand) if flags[2 * i] == '@reserved=1']
@@ -66,7 +66,8 @@ def cfg_lines(words, builtins):
 TYPE_TAGS = {'pointers', 'references', 'refrefs', 'arrays', 'qualifieds', 'functions', 'funXfers', 'products', 'sums',
              'foralls', 'memberPtrs', 'tors', 'extendeds', 'typeRefs', 'typeXfers'}
 NAME_TAGS = {'ids', 'ops', 'suffixes', 'convs', 'ctors', 'dtors', 'guideIds', 'templateIds'}
-FRESH_TYPE_KINDS = {0, 1, 2, 3}
+FRESH_TYPE_KINDS = {0, 1, 2, 3, 7}      # class, union, enum, namespace; 7 = a client-built type node at a placed address
+PLACED_SLOTS = 48
 
 
 class H:
@@ -101,6 +102,7 @@ class Spec:
         self.fresh = 0
         self.created = 0         # nodes filed so far (hits = requests - created)
         self.by_tag = {}         # tag -> nodes filed in that table, in order of creation
+        self.placed = set()      # placement slots taken by client-built nodes
 
     # -- statics
     def stat(self, *k):
@@ -275,6 +277,13 @@ class Spec:
                 w(self.is_name, a[1]); w(lambda h: h.tag == 'foralls', a[2])
             self.fresh += 1
             return self.intern(('fresh', self.fresh, kind), ())
+        if op == 'placed':
+            # a client-built type node (named by an Identifier) at a chosen address: an ordinary, distinct operand
+            w(self.is_ident, a[1])
+            if not 0 <= a[0] < PLACED_SLOTS or a[0] in self.placed: raise IllSorted()
+            self.placed.add(a[0])
+            self.fresh += 1
+            return self.intern(('fresh', self.fresh, 7), ())
         if op == 'unit': return self.identifier(b'')
         if op == 'builtin':
             if a[0] not in self.builtins: raise IllSorted()
@@ -325,7 +334,7 @@ class Spec:
            'xfer_convention', 'eq_logo', 'eq_link', 'eq_cc', 'eq_xfer'}
     WORD_ARG = {'string': (0,), 'identifier_w': (0,), 'operator_w': (0,), 'literal_w': (1,), 'linkage_w': (0,),
                 'calling_convention': (0,), 'builtin': (0,)}
-    INT_ARG = {'qualified': (0,), 'fresh': (0,)}
+    INT_ARG = {'qualified': (0,), 'fresh': (0,), 'placed': (0,)}
     RAW_ARG = {'const': (0,)}
 
     def name(self, h):
@@ -351,7 +360,7 @@ class Spec:
 
     def step(self, line):
         """What the specification requires the implementation to print for this op line."""
-        if line in ('new', 'stat') or line.startswith('cfg'):
+        if line in ('new', 'renew', 'stat') or line.startswith('cfg') or re.fullmatch(r'lexicon \d', line):
             return 'ok' if line != 'stat' else None
         if line.startswith('tree '):
             hs = self.by_tag.get(line.split()[1], [])
@@ -451,7 +460,7 @@ class Gen:
         if out.startswith('n'):
             h = self.spec.names[int(out[1:])]
             self.classify(h)
-        if remember and op not in Spec.OBS and op not in ('fresh', 'unit', 'builtin', 'const', 'cxx_linkage', 'c_linkage', 'cxx_transfer'):
+        if remember and op not in Spec.OBS and op not in ('fresh', 'placed', 'unit', 'builtin', 'const', 'cxx_linkage', 'c_linkage', 'cxx_transfer'):
             self.requests.append((op, list(args)))
         return h
 
@@ -804,13 +813,166 @@ def qualifier_sweep(g, max_steps, operands):
     g.stats['_qualifier_chains'] = g.stats.get('_qualifier_chains', 0) + n
 
 
+def placed_sweep(g, slots):
+    """Client-built type nodes at placed addresses (pages 128 B, 4 KiB, 2 GiB, 4 GiB, 32 GiB, k * 64 GiB apart: `placed` of the probe) used
+    as operands of every unary / binary constructor; every request is made twice, in two scrambled orders, dependent requests
+    (functions over products of placed nodes ...) after the ones that name their operands.  For the specification they are ordinary
+    distinct operands."""
+    g.prologue()
+    rng = g.rng
+    ps = []
+    for s in slots:
+        i = g.emit('identifier_w', [b'__placed%d' % s], False)
+        p = g.emit('placed', [s, i], False)
+        if p is not None: ps.append(p)
+    INT, CHAR = g.emit('builtin', [b'int'], False), g.emit('builtin', [b'char'], False)
+    lit = g.emit('literal_w', [INT, b'4'], False)
+    TRUE = g.emit('const', ['true'], False)
+    nm = g.emit('identifier_w', [b'member'], False)
+    wave1 = []
+    for p in ps:
+        wave1 += [('pointer', [p]), ('reference', [p]), ('rvalue_reference', [p]), ('qualified', [1, p]), ('qualified', [6, p]),
+                  ('array', [p, lit]), ('ptr_to_member', [p, INT]), ('ptr_to_member', [CHAR, p]), ('product_seq', [p]),
+                  ('product_wh', [INT, p]), ('sum_seq', [p]), ('sum_wh', [p, CHAR]), ('as_type_expr', [p]),
+                  ('conversion', [p]), ('ctor', [p]), ('dtor', [p]), ('this', [p]), ('symbol', [nm, p]), ('literal_w', [p, b'0'])]
+    rng.shuffle(wave1)
+    got = {}
+    for op, a in wave1:
+        got[(op, tuple(a))] = g.emit(op, a, False)
+    wave2 = []
+    for p in ps:
+        pr, su = got.get(('product_seq', (p,))), got.get(('sum_seq', (p,)))
+        q = got.get(('qualified', (1, p)))
+        if pr is not None:
+            wave2 += [('function', [pr, p]), ('function_e', [pr, p, TRUE]), ('forall', [pr, p])]
+            if su is not None: wave2.append(('tor', [pr, su]))
+        if q is not None: wave2 += [('qualified', [2, q]), ('qualified', [1, q]), ('pointer', [q])]
+    rng.shuffle(wave2)
+    for op, a in wave2:
+        g.emit(op, a, False)
+    again = wave1 + wave2
+    rng.shuffle(again)
+    for k, (op, a) in enumerate(again):
+        h = g.emit(op, a)                     # (remembered: the random part of the history asks for them again, and near misses of them)
+        if k % 9 == 0: g.observe_some(h)
+    g.stats['_placed_nodes'] = g.stats.get('_placed_nodes', 0) + len(ps)
+    g.stats['_placed_requests'] = g.stats.get('_placed_requests', 0) + 2 * (len(wave1) + len(wave2))
+    return ps
+
+
+def qualifier_mix(g, operands, triples):
+    """Chains of successive qualification over SEVERAL unqualified types advanced in a scrambled interleaving, so that nodes filed by a
+    direct request get_qualified(q, T) and nodes filed through a qualified operand get_qualified(q', get_qualified(q, T)) meet in one table
+    in every order: all 49 ordered pairs (q, q') -- disjoint, overlapping, q' inside q, q inside q', equal -- and `triples` random chains
+    of three per operand, each followed by the one-step request for the union."""
+    rng = g.rng
+    chains = []
+    for t in operands:
+        for q in range(1, 8):
+            for q2 in range(1, 8):
+                chains.append((t, [q, q2]))
+        for _ in range(triples):
+            chains.append((t, [rng.randrange(1, 8) for _ in range(3)]))
+    rng.shuffle(chains)
+    active = []
+    overlap = {'disjoint': 0, 'overlapping': 0, 'second_inside_first': 0, 'first_inside_second': 0}
+    it = iter(chains)
+    pending = True
+    n = 0
+    while pending or active:
+        while pending and len(active) < 12:
+            c = next(it, None)
+            if c is None:
+                pending = False
+                break
+            active.append([c[0], list(c[1]), c[0], 0])        # operand, remaining sets, current node, union so far
+        if not active: break
+        k = rng.randrange(len(active))
+        t, rest, cur, u = active[k]
+        q = rest.pop(0)
+        if u:
+            if u & q == 0: overlap['disjoint'] += 1
+            elif q & ~u == 0: overlap['second_inside_first'] += 1
+            elif u & ~q == 0: overlap['first_inside_second'] += 1
+            else: overlap['overlapping'] += 1
+        cur = g.emit('qualified', [q, cur], False)
+        u |= q
+        if cur is None or not rest:
+            active.pop(k)
+            n += 1
+            if cur is not None:
+                if n % 2: g.emit('qualified', [u, t], False)        # the one-step request for the union: the same node
+                if n % 4 == 0: g.observe_some(cur)
+        else:
+            active[k] = [t, rest, cur, u]
+    g.stats['_qualifier_chains'] = g.stats.get('_qualifier_chains', 0) + n
+    for k, v in overlap.items():
+        g.stats['_requalification_' + k] = g.stats.get('_requalification_' + k, 0) + v
+
+
+def fresh_operand_sweep(g, m):
+    """What the successor of a destroyed Lexicon is asked first.  It is constructed in place, and the storage of the predecessor's nodes
+    is handed out again (last freed first): `m` brand-new unqualified type nodes -- more than the predecessor had nodes -- take those
+    addresses.  Then, before anything is asked about any other node, each of them is the operand of a direct qualification, read back
+    at once (qualifiers, main variant); then of the other unary constructors; then every request is made a second time in another
+    order.  Whatever the library remembers by address about a dead Lexicon's nodes is looked up here with a live node of another kind."""
+    rng = g.rng
+    g.prologue()
+    fresh = []
+    while len(fresh) < m:
+        base = g.pick('unqual')
+        op = rng.choice(['pointer', 'pointer', 'reference', 'reference', 'rvalue_reference', 'product_seq', 'sum_seq', 'as_type_expr',
+                         'ptr_to_member', 'fresh'])
+        before = g.spec.created
+        if op == 'ptr_to_member': t = g.emit(op, [base, g.pick('unqual')], False)
+        elif op == 'fresh': t = g.emit(op, [rng.choice([0, 1, 2])], False)
+        else: t = g.emit(op, [base], False)
+        if t is not None and g.spec.created > before and t.tag != 'qualifieds': fresh.append(t)
+    order = list(fresh)
+    rng.shuffle(order)
+    asked = []
+    for t in order:
+        r = ('qualified', [rng.randrange(1, 8), t])
+        g.observe_some(g.emit(r[0], r[1], False))
+        asked.append(r)
+    for t in order:
+        for op2 in rng.sample(['pointer', 'reference', 'rvalue_reference', 'conversion', 'ctor', 'dtor', 'this', 'as_type_expr'], 2):
+            h = g.emit(op2, [t], False)
+            asked.append((op2, [t]))
+            if op2 == 'this': g.observe_some(h)
+    rng.shuffle(asked)
+    for k, (op, a) in enumerate(asked):
+        h = g.emit(op, a)
+        if k % 5 == 0: g.observe_some(h)
+    g.stats['_fresh_operands_used_at_once'] = g.stats.get('_fresh_operands_used_at_once', 0) + len(fresh)
+
+
+def last_requests(g):
+    """What a Lexicon about to be destroyed is asked last: every constructor of the profile once more, and a re-qualification."""
+    ops = list(g.WEIGHTS[g.profile])
+    g.rng.shuffle(ops)
+    for op in ops:
+        h = g.new_request(op)
+        if h is not None and h.tag == 'qualifieds':
+            g.observe_some(g.emit('qualified', [g.rng.randrange(1, 8), h]))
+    qs = [h for h in g.pool['type'] if h.tag == 'qualifieds']
+    if qs: g.emit('qualified', [g.rng.randrange(1, 8), g.rng.choice(qs)])
+
+
 def build_histories(pid, tier, seed, words, builtins):
+    """-> (the main histories, the short histories run one after the other on Lexicons constructed in place)."""
     rng = random.Random(seed * 1000003 + {'C01': 1, 'C04': 4, 'C11': 11}[pid])
     nh, nreq = (4, 3000) if tier == 'quick' else (16, 100000)
     if pid == 'C11': nreq = 1500 if tier == 'quick' else 30000
     hs = []
     for i in range(nh):
         g = Gen(words, builtins, rng, pid)
+        placed = []
+        if i % 2 == 0 and i < 4:
+            # far-apart client-built operand nodes: all 12 pages (history 0: two positions on four of them), scrambled
+            slots = list(range(12)) + ([12, 17, 19, 22] if i == 0 else [])
+            rng.shuffle(slots)
+            placed = placed_sweep(g, slots)
         if pid == 'C04' and i % 2 == 0:
             g.prologue()
             reserved_sweep(g, 10 if tier == 'quick' else 20)
@@ -827,16 +989,167 @@ def build_histories(pid, tier, seed, words, builtins):
                      g.emit('as_type_expr', [g.emit('const', ['true'])]), g.emit('as_type_id', [g.emit('identifier_w', [b'__int128'])]),
                      g.emit('forall', [g.emit('product_seq', []), P('type')]), g.emit('fresh', [0]), g.emit('fresh', [2]), g.emit('fresh', [1]),
                      g.emit('tor', [g.emit('product_seq', []), g.emit('sum_seq', [])])]
-            qualifier_sweep(g, 3 if tier == 'quick' else 5, [k for k in kinds if k is not None] if tier == 'quick' else [k for k in kinds if k is not None][:6])
+            kinds = [k for k in kinds if k is not None and k.tag != 'qualifieds']
+            qualifier_sweep(g, 3 if tier == 'quick' else 5, kinds if tier == 'quick' else kinds[:6])
+            # several main variants at once, direct and re-qualification requests interleaved, overlapping successive sets; among the
+            # operands: built-ins (static storage), nodes of this Lexicon, client-built nodes far apart in both address orders
+            mix = [k for k in kinds[:5]] + [g.emit('builtin', [b'double'])] + placed[:2] + placed[-2:]
+            rng.shuffle(mix)
+            qualifier_mix(g, [t for t in mix if t is not None], 12 if tier == 'quick' else 40)
+        elif pid == 'C11' and i < 4:
+            g.prologue()
+            mix = [g.emit('builtin', [rng.choice(builtins)]) for _ in range(3)] + [g.emit('pointer', [g.pick('type')]), g.emit('fresh', [0])] + placed[:3]
+            rng.shuffle(mix)
+            qualifier_mix(g, [t for t in mix if t is not None and t.tag != 'qualifieds'], 6)
         g.run(nreq)
         hs.append(g)
-    return hs
+    # Lexicons constructed one after the other in ONE place, node storage recycled: short-lived ones, each followed by a successor whose
+    # first requests put more brand-new operands than the predecessor had nodes where those nodes were
+    pairs, vreq, sreq = (5, 120, 200) if tier == 'quick' else (10, 600, 1500)
+    succ = []
+    for i in range(pairs):
+        v = Gen(words, builtins, rng, pid)
+        v.prologue()
+        if i % 3 == 1:
+            placed_sweep(v, rng.sample(range(PLACED_SLOTS), 4))
+        v.run(v.stats.get('_requests', 0) + vreq)
+        last_requests(v)
+        g = Gen(words, builtins, rng, pid)
+        fresh_operand_sweep(g, v.spec.created + 60)
+        g.run(g.stats.get('_requests', 0) + sreq)
+        succ += [v, g]
+    return hs, succ
+
+
+# ---------------------------------------------------------------------------------------------- one process, several Lexicons
+
+CHUNKS = [1, 1, 1, 1, 2, 2, 3, 3, 5, 8, 13, 21, 34, 89, 233]
+
+
+class Script:
+    """The op lines one probe process reads: configuration, then the histories of several Lexicons interleaved in chunks.
+    `owner[i]` = (instance, index in its history) of flat line i, or None for a control line (`lexicon k`, `new`, `renew`, cfg)."""
+
+    def __init__(self, cfg):
+        self.flat, self.owner, self.want = list(cfg), [None] * len(cfg), ['ok'] * len(cfg)
+        self.instances = []          # dict(gen=index into gens, slot=, mode='new'|'renew', first=flat index of its first line)
+        self.cur = 0
+        self.chunks = {}
+        self.switches = 0
+        self.lockstep_rounds = 0
+        self.live = {0}
+        self.max_live = 1
+
+    def control(self, line):
+        self.flat.append(line); self.owner.append(None); self.want.append('ok')
+
+    def switch(self, slot):
+        if slot != self.cur:
+            self.control('lexicon %d' % slot)
+            self.cur = slot
+            self.switches += 1
+            self.live.add(slot)
+            self.max_live = max(self.max_live, len(self.live))
+
+    def begin(self, gen, slot, mode):
+        self.switch(slot)
+        self.control(mode)
+        self.instances.append(dict(gen=gen, slot=slot, mode=mode, first=len(self.flat)))
+        return len(self.instances) - 1
+
+    def ops(self, inst, g, a, b):
+        self.switch(self.instances[inst]['slot'])
+        for j in range(a, b):
+            self.flat.append(g.lines[j]); self.owner.append((inst, j)); self.want.append(g.expect[j])
+        self.chunks[b - a] = self.chunks.get(b - a, 0) + 1
+
+
+def interleave(script, gens, rng, members):
+    """members: (gen index, slot, twin_of or None).  Histories advance in chunks of random size; a twin (the same history asked of a
+    second Lexicon) moves in lockstep with its original: the chunk one of them has just run is run by the other next (in either order),
+    sometimes with a chunk of a third Lexicon in between."""
+    insts = [script.begin(gi, slot, 'new') for gi, slot, _ in members]
+    pos = [0] * len(members)
+    partner = {}
+    for k, (_, _, tw) in enumerate(members):
+        if tw is not None:
+            partner[k] = tw; partner[tw] = k
+    def left(k): return len(gens[members[k][0]].lines) - pos[k]
+    while True:
+        todo = [k for k in range(len(members)) if left(k) > 0]
+        if not todo: break
+        k = rng.choices(todo, [left(k) for k in todo])[0]
+        c = min(rng.choice(CHUNKS), left(k))
+        g = gens[members[k][0]]
+        if k in partner and pos[partner[k]] == pos[k]:
+            first, second = (k, partner[k]) if rng.random() < 0.5 else (partner[k], k)
+            script.ops(insts[first], g, pos[k], pos[k] + c)
+            others = [o for o in todo if o not in (k, partner[k])]
+            if others and rng.random() < 0.25:
+                o = rng.choice(others)
+                co = min(rng.choice(CHUNKS[:9]), left(o))
+                script.ops(insts[o], gens[members[o][0]], pos[o], pos[o] + co)
+                pos[o] += co
+            script.ops(insts[second], g, pos[k], pos[k] + c)
+            pos[partner[k]] += c
+            script.lockstep_rounds += 1
+        else:
+            script.ops(insts[k], g, pos[k], pos[k] + c)
+        pos[k] += c
+
+
+def build_script(cfg, hs, succ, rng):
+    """Group 1: history 0, its twin and history 1 in three Lexicons; group 2: the same with histories 2 and 3; then the other histories three
+    at a time; then, in a fourth place,
+    the short histories one after the other, each on a Lexicon constructed IN PLACE of the destroyed previous one (`renew`)."""
+    gens = hs + succ
+    sc = Script(cfg)
+    interleave(sc, gens, rng, [(0, 0, None), (0, 1, 0), (1, 2, None)])
+    interleave(sc, gens, rng, [(2, 0, None), (2, 1, 0), (3, 2, None)])
+    rest = list(range(4, len(hs)))
+    while rest:
+        grp, rest = rest[:3], rest[3:]
+        interleave(sc, gens, rng, [(gi, slot, None) for slot, gi in enumerate(grp)])
+    for k in range(len(succ)):
+        inst = sc.begin(len(hs) + k, 3, 'renew')
+        sc.ops(inst, succ[k], 0, len(succ[k].lines))
+    return sc, gens
+
+
+def deinterleave(flat):
+    """A flat script -> per line the number of the history (Lexicon incarnation) it belongs to, None for control lines; histories in
+    order of creation.  (The probe starts with a Lexicon in place 0; `lexicon k` creates one at first use.)"""
+    hist_of, slots, cur, nh = [], {}, 0, 0
+    for l in flat:
+        m = re.fullmatch(r'lexicon (\d)', l)
+        if l.startswith('cfg'):
+            hist_of.append(None)
+        elif m:
+            cur = int(m.group(1))
+            hist_of.append(None)
+        elif l in ('new', 'renew'):
+            slots[cur] = nh; nh += 1
+            hist_of.append(None)
+        else:
+            if cur not in slots:
+                slots[cur] = nh; nh += 1
+            hist_of.append(slots[cur])
+    return hist_of, nh
+
+
+def spec_of_script(flat, words, builtins, with_specs=False):
+    """What the statement requires of every line of a flat script: each Lexicon is judged by its own history alone."""
+    hist_of, nh = deinterleave(flat)
+    specs = [Spec(words, builtins) for _ in range(nh)]
+    want = [('ok' if h is None else specs[h].step(l)) for l, h in zip(flat, hist_of)]
+    return (want, specs, hist_of) if with_specs else want
 
 
 # ---------------------------------------------------------------------------------------------- running, oracle, correspondence
 
-def split_impl(raw, shapes=None):
-    """Probe output -> (compared lines, failed '@' assertions); '#shape' lines are collected into `shapes`."""
+def split_impl(raw, shapes=None, notes=None):
+    """Probe output -> (compared lines, failed '@' assertions); '#shape' lines are collected into `shapes`, the other '#' lines
+    (statistics, `#shared`) into `notes`, each with the index of the compared line it follows."""
     lines, failed = [], []
     for ln in raw.splitlines():
         if ln.startswith('@'):
@@ -844,6 +1157,8 @@ def split_impl(raw, shapes=None):
         elif ln.startswith('#'):
             if shapes is not None and ln.startswith('#shape '):
                 shapes.append((len(lines) - 1, ln[7:]))
+            elif notes is not None:
+                notes.append((len(lines) - 1, ln))
         else:
             lines.append(ln)
     return lines, failed
@@ -853,6 +1168,32 @@ TREE_TAGS = ['xferLinks', 'xferCCs', 'xfers', 'extendeds', 'arrays', 'typeRefs',
              'pointers', 'products', 'memberPtrs', 'qualifieds', 'references', 'refrefs', 'sums', 'foralls', 'typeSeqs',
              'logos', 'ids', 'suffixes', 'convs', 'ctors', 'dtors', 'ops', 'guideIds', 'linkages', 'conventions', 'lits',
              'templateIds', 'symbols']
+
+# Which assertions about a Lexicon used during static initialisation belong to which statement.
+EARLY = {
+    'C04': ('string', 'identifier', 'logogram', 'linkage', 'as_type', 'builtin_names', 'constant_names'),
+    'C01': ('as_type', 'type_same_lexicon', 'builtin_names'),
+    'C11': ('qualified_normal', 'type_same_lexicon'),
+}
+
+
+def early_failures(pid, failed):
+    out = []
+    for _, a in failed:
+        if a.startswith('@early_'):
+            what = a[len('@early_'):].split('=')[0]
+            for k in ('same_lexicon_', 'constant_'):
+                if what.startswith(k) and what not in ('constant_names',): what = what[len(k):]
+            if any(what == e or what.startswith(e + '_of_') for e in EARLY[pid]):
+                out.append(a)
+    return out
+
+
+EARLY_TEXT = ('a Lexicon used from the initialiser of a namespace-scope object of a client translation unit linked before the library '
+              '(harness/unifyprobe.cxx, object `early`) and asked the same questions again in main(): `@early_same_lexicon_<what>=0` = the same '
+              'Lexicon answers the same request with another node now; `@early_constant_<what>=0` = a process-wide constant (two fresh Lexicons '
+              'answer one node) was not that node then; `@early_*_names=0` = the name of a built-in type / symbolic constant was not the '
+              'Identifier get_identifier answered; `@early_qualified_normal=0` = successive qualification did not end at the node of the union')
 
 
 def explain(spec_before_line, line, want, got):
@@ -896,18 +1237,32 @@ def slice_ops(lines, expect, i):
     return out_lines
 
 
-class Runner:
-    def __init__(self, pid, words, builtins, whitebox=False):
-        self.pid, self.words, self.builtins = pid, words, builtins
-        self.probe = C.build_harness(PROBE, 'asan', extra=('-DUNIFY_WHITEBOX',) if whitebox else ())
-        self.cfg = cfg_lines(words, builtins)
-        self.shapes = []
+def early_env(words_hint=None):
+    """The spellings the probe's namespace-scope object asks for during static initialisation: every candidate literal of the sources."""
+    return {'UNIFY_EARLY_WORDS': ','.join(w.hex() for w in (words_hint if words_hint is not None else candidates()))}
 
-    def run_impl(self, histories):
-        text = '\n'.join(self.cfg + [l for h in histories for l in ['new'] + h] + [''])
-        rc, out, err = C.run_exe(self.probe, [], text)
-        self.shapes = []
-        lines, failed = split_impl(out, self.shapes)
+
+def boot(probe):
+    """Does the probe reach main() at all?  -> (ok, rc, out, err)"""
+    rc, out, err = C.run_exe(probe, [], '', env=early_env())
+    return rc == 0 and '#main-reached' in out, rc, out, err
+
+
+class Runner:
+    def __init__(self, pid, words, builtins, probe):
+        self.pid, self.words, self.builtins, self.probe = pid, words, builtins, probe
+        self.cfg = cfg_lines(words, builtins)
+        self.env = early_env()
+        self.limit = 3600
+        self.shapes, self.notes = [], []
+
+    def run_impl(self, flat):
+        """flat: the whole script, configuration lines included."""
+        text = '\n'.join(flat + [''])
+        # (a request that never returns is a result: the probe is stopped after `limit` seconds and what it had answered is kept)
+        rc, out, err = C.run_exe(self.probe, [], text, timeout=self.limit, env=self.env)
+        self.shapes, self.notes = [], []
+        lines, failed = split_impl(out, self.shapes, self.notes)
         return rc, lines, failed, err, text
 
     def run_model(self, text):
@@ -916,75 +1271,133 @@ class Runner:
             raise C.BuildError('model driver failed: ' + err[-2000:])
         return [l for l in out.splitlines() if not l.startswith('#')]
 
-    def spec_lines(self, histories):
-        out = ['ok'] * len(self.cfg)
-        for h in histories:
-            s = Spec(self.words, self.builtins)
-            out.append('ok')
-            out += [s.step(l) for l in h]
-        return out
+    def shared_violation(self, flat, want_names):
+        """`#shared n<k> <place>`: the node just named n<k> was also answered to the live Lexicon in <place>.  Legitimate for the
+        process-wide constants only.  want_names(flat index, k) -> True iff the specification's k-th node of that history is a constant."""
+        for idx, note in self.notes:
+            if note.startswith('#shared '):
+                _, nk, place = note.split()
+                if not want_names(idx, int(nk[1:])):
+                    return idx, nk, place
+        return None
 
-    def fails_on_impl(self, hist):
-        """Does this single history (list of op lines) violate the specification on the implementation?"""
-        rc, lines, failed, err, _ = self.run_impl([hist])
-        want = self.spec_lines([hist])
-        return rc != 0 or failed or C.first_diff(lines, want) is not None
+    def fails(self, flat):
+        """Does this script violate the specification on the implementation?"""
+        rc, lines, failed, err, _ = self.run_impl(flat)
+        want = spec_of_script(flat, self.words, self.builtins)
+        return rc != 0 or bool(early_failures(self.pid, failed)) or C.first_diff(lines, want) is not None
 
 
 def check(pid, tier, manifest_rule):
     res = C.Result(pid, tier)
     ok, info, detail = C.prove(res, pid)
-    words, builtins = load_config()
     whitebox = tier == 'thorough'
+    probe = None
     if whitebox:
         try:
-            R = Runner(pid, words, builtins, whitebox=True)
+            probe = C.build_harness(PROBE, 'asan', extra=('-DUNIFY_WHITEBOX',))
         except C.BuildError as e:
             # The white-box unit (private member names) no longer compiles against this tree.  It is a supplementary reading:
             # the black-box tie below still runs in full, so this is recorded, not alarmed (a renamed private member is harmless).
             res.cov['whitebox'] = 'unavailable: harness/unifyprobe.cxx -DUNIFY_WHITEBOX does not compile against this tree: ' + str(e)[-400:]
             whitebox = False
-    if not whitebox:
-        R = Runner(pid, words, builtins)
-    gens = build_histories(pid, tier, C.seed(), words, builtins)
+    if probe is None:
+        probe = C.build_harness(PROBE, 'asan')
+    alive, rc0, out0, err0 = boot(probe)
+    early_dead = None
+    if not alive:
+        # Is it the use during static initialisation that kills it?  (Without UNIFY_EARLY_WORDS the namespace-scope object does nothing.)
+        rc1, out1, err1 = C.run_exe(probe, [], '')
+        early_dead = ('unifyprobe died during static initialisation (exit %d, main() %s): a client translation unit linked '
+                      'before the library creates a Lexicon and asks it for strings, identifiers, logograms, linkages and types from the '
+                      'initialiser of a namespace-scope object%s\n%s' % (
+                          rc0, 'not reached' if '#main-reached' not in out0 else 'reached',
+                          '; the same probe started without that use reaches main() and exits normally' if rc1 == 0 and '#main-reached' in out1 else
+                          '; it does not survive without that use either (the requests that follow say where it stops)', err0[-3000:]))
+        if rc1 == 0 and '#main-reached' in out1:
+            res.violation('crash:static-init', early_dead,
+                          '# static-init: run the probe with no op line (UNIFY_EARLY_WORDS = the candidate literals of the sources)\n')
+            early_dead = None
+    words, builtins = load_config(probe)
+    R = Runner(pid, words, builtins, probe)
+    R.limit = 120 if tier == 'quick' else 3600
+    if not alive:
+        R.env = {}                       # (the rest of the check runs without the use during static initialisation)
+    hs, succ = build_histories(pid, tier, C.seed(), words, builtins)
     if whitebox:
-        for g in gens:
+        for g in hs:
             for t in TREE_TAGS:
                 g.emit('tree', [t], False)
-    hists = [g.lines for g in gens]
-    rc, impl, failed, err, text = R.run_impl(hists)
+    sc, gens = build_script(R.cfg, hs, succ, random.Random(C.seed() * 7919 + {'C01': 1, 'C04': 4, 'C11': 11}[pid]))
+    flat, want, owner = sc.flat, sc.want, sc.owner
+    rc, impl, failed, err, text = R.run_impl(flat)
     ncfg = len(R.cfg)
-    flat = R.cfg + [l for h in hists for l in ['new'] + h]
-    want = ['ok'] * ncfg + [x for g in gens for x in ['ok'] + g.expect]
 
-    def locate(k):
-        """flat index -> (history number, index inside the history or -1)."""
-        k -= ncfg
-        for hi, h in enumerate(hists):
-            if k <= len(h): return hi, k - 1
-            k -= len(h) + 1
-        return len(hists) - 1, len(hists[-1]) - 1
+    def where(k):
+        k = min(k, len(flat) - 1)
+        o = owner[k]
+        if o is None:
+            return 'script line %d (`%s`)' % (k, flat[k])
+        inst = sc.instances[o[0]]
+        return 'script line %d = op %d of history %d (Lexicon in place %d%s)' % (
+            k, o[1], inst['gen'], inst['slot'], ', constructed in place of its destroyed predecessor' if inst['mode'] == 'renew' else '')
 
-    def replay_text(hi, i):
-        h = hists[hi][:i + 1]
-        sl = slice_ops(hists[hi], gens[hi].expect, i) if i >= 0 else None
-        if sl is not None and R.fails_on_impl(sl):
-            return '\n'.join(R.cfg + ['new'] + sl), len(sl)
-        return '\n'.join(R.cfg + ['new'] + h), len(h)
+    def replay_text(k):
+        """The smallest of: the dependency slice alone / the history alone in its place / its place's earlier occupants and it / the whole prefix."""
+        k = min(k, len(flat) - 1)
+        o = owner[k]
+        cands = []
+        if o is not None:
+            inst = sc.instances[o[0]]
+            g = gens[inst['gen']]
+            sl = slice_ops(g.lines, g.expect, o[1])
+            if sl is not None:
+                cands.append(['new'] + sl)
+                if inst['mode'] == 'renew': cands.append(['lexicon %d' % inst['slot'], 'renew'] + sl)
+            cands.append(['lexicon %d' % inst['slot'], inst['mode']] + g.lines[:o[1] + 1])
+            chain = []
+            for i2, other in enumerate(sc.instances[:o[0]]):
+                if other['slot'] == inst['slot']:
+                    chain += [other['mode']] + gens[other['gen']].lines
+            cands.append(['lexicon %d' % inst['slot']] + chain + [inst['mode']] + g.lines[:o[1] + 1])
+        keep, R.limit = R.limit, min(R.limit, 30 if tier == 'quick' else 300)     # (a candidate that hangs is a candidate that reproduces)
+        try:
+            for c in cands:
+                if len(c) < k - ncfg and R.fails(R.cfg + c):
+                    return '\n'.join(R.cfg + c), len(c)
+        finally:
+            R.limit = keep
+        return '\n'.join(flat[:k + 1]), k + 1 - ncfg
 
+    def is_constant(idx, k):
+        o = owner[idx]
+        if o is None: return True
+        names = gens[sc.instances[o[0]]['gen']].spec.names
+        return k < len(names) and names[k].tag == 'static'
+
+    early_bad = early_failures(pid, failed)
+    other_bad = [(k, a) for k, a in failed if not a.startswith('@early_')]
     d = C.first_diff(impl, want)
+    shared = R.shared_violation(flat, is_constant)
+    if shared is not None and d is not None and shared[0] >= d:
+        shared = None
     if rc != 0 and (d is None or d >= len(impl)):
-        hi, i = locate(len(impl))
-        rt, n = replay_text(hi, i)
-        res.violation('crash', 'unifyprobe stopped (exit %d) after %d of %d ops, in history %d at `%s`\n%s' % (
-            rc, len(impl), len(flat), hi, flat[min(len(impl), len(flat) - 1)], err[-3000:]), rt)
+        rt, n = replay_text(len(impl))
+        res.violation('crash', 'unifyprobe %s after %d of %d script lines, at %s\n%s' % (
+            'did not return from a request within %d s (stopped)' % R.limit if rc == C.TIMEOUT else 'stopped (exit %d)' % rc,
+            len(impl), len(flat), where(len(impl)), err[-3000:]), rt)
+    elif shared is not None:
+        idx, nk, place = shared
+        res.violation('statement:foreign-node', '%s: `%s` answered a node (%s) that the live Lexicon in place %s had been answered as well; it is not a '
+                      'process-wide constant (the statement: a Lexicon answers its own node for each normal form)' % (where(idx), flat[idx], nk, place),
+                      '\n'.join(flat[:idx + 1]))
     elif d is not None:
-        hi, i = locate(d)
-        rt, n = replay_text(hi, i)
-        res.violation('statement', 'history %d, op %d: ' % (hi, i) + explain(None, flat[d], want[d], impl[d] if d < len(impl) else '<none>') +
-                      '\nreplay: %d op lines (dependency slice when it reproduces, else the whole prefix)' % n, rt)
-    elif failed:
-        k, a = failed[0]
+        rt, n = replay_text(d)
+        res.violation('statement', where(d) + ': ' + explain(None, flat[d], want[d], impl[d] if d < len(impl) else '<none>') +
+                      '\nreplay: %d lines after the configuration (the smallest of: dependency slice / the history alone / with the earlier occupants '
+                      'of its place / the whole script prefix -- whichever still reproduces)' % n, rt)
+    elif other_bad:
+        k, a = other_bad[0]
         res.violation('config', 'the implementation disagrees with the tables read from the sources: %s after `%s`; every generated request '
                       'was nevertheless answered as the statement requires' % (a, flat[k] if 0 <= k < len(flat) else '?'),
                       'correspondence: reserved words / built-in names read from src/impl.cxx, src/builtin.def vs execution\n' + '\n'.join(flat[:k + 1]), found_input=False)
@@ -992,13 +1405,18 @@ def check(pid, tier, manifest_rule):
         model = R.run_model(text)
         dm = C.first_diff(impl, model)
         if dm is not None:
-            hi, i = locate(dm)
             res.violation('correspondence:unify-model',
-                          'implementation and Lean model disagree at history %d op %d `%s`\n impl : %s\n model: %s\n'
+                          'implementation and Lean model disagree at %s `%s`\n impl : %s\n model: %s\n'
                           'the implementation trace itself satisfies the statement (specification oracle), so the theorems no longer '
-                          'speak about this code' % (hi, i, flat[dm], impl[dm] if dm < len(impl) else '<none>', model[dm] if dm < len(model) else '<none>'),
+                          'speak about this code' % (where(dm), flat[min(dm, len(flat) - 1)], impl[dm] if dm < len(impl) else '<none>', model[dm] if dm < len(model) else '<none>'),
                           'correspondence: harness/unifyprobe.cxx vs lean/IprModel/Unify.lean (theorems IprProps/%s.lean)\n' % pid +
-                          '\n'.join(R.cfg + ['new'] + hists[hi][:i + 1]), found_input=False)
+                          '\n'.join(flat[:dm + 1]), found_input=False)
+    if early_bad:
+        notes = [n for _, n in R.notes if n.startswith('#early')]
+        res.violation('static-init:' + early_bad[0][1:].split('=')[0], '%s\nfailed: %s\n%s' % (EARLY_TEXT, ' '.join(early_bad), '\n'.join(notes)),
+                      '# static-init: %s\n# (no op line is needed: the probe reports these before it reads any)\n' % ' '.join(early_bad))
+    if early_dead is not None and not res.violations:
+        res.violation('crash:static-init', early_dead, '# static-init: run the probe with no op line\n')
     if whitebox and not res.violations and R.shapes:
         # the verified checkers of C08 (checkRB, height bound; keys are in-order ranks) on every real tree
         rc_c, out_c, _ = C.run_model('c08', ''.join('chk %s\n' % sh.split(' ', 1)[1] for _, sh in R.shapes))
@@ -1007,9 +1425,8 @@ def check(pid, tier, manifest_rule):
         res.cov['real_trees_checked_by_verified_checkers'] = len(answers)
         if badshape or len(answers) != len(R.shapes):
             (k, sh), a = badshape[0] if badshape else (R.shapes[-1], '<no answer>')
-            hi, i = locate(k)
-            res.violation('tree-shape', 'the real tree of table %s violates the red-black rules / height bound (verified checkers: %s)' % (sh.split()[0], a),
-                          '\n'.join(R.cfg + ['new'] + hists[hi][:i + 1]))
+            res.violation('tree-shape', 'the real tree of table %s violates the red-black rules / height bound (verified checkers: %s), at %s' % (sh.split()[0], a, where(k)),
+                          '\n'.join(flat[:k + 1]))
     if not ok:
         res.proof_broken('IprProps.' + pid, detail)
 
@@ -1018,7 +1435,7 @@ def check(pid, tier, manifest_rule):
         for k, v in g.stats.items():
             agg[k] = agg.get(k, 0) + v
     reqs = agg.get('_requests', 0)
-    res.cov['traces_validated_against_impl'] = len(hists)
+    res.cov['traces_validated_against_impl'] = len(sc.instances)
     res.cov['ops'] = len(flat)
     res.cov['ops_sha256'] = __import__('hashlib').sha256('\n'.join(flat).encode()).hexdigest()[:16]
     res.cov['requests'] = reqs
@@ -1028,6 +1445,8 @@ def check(pid, tier, manifest_rule):
     res.cov['sequences_sharing_a_prefix_with_an_earlier_one'] = agg.get('_shared_prefix_seqs', 0)
     res.cov['near_miss_requests(one argument changed)'] = agg.get('_near_miss_requests', 0)
     res.cov['qualifier_chains_enumerated'] = agg.get('_qualifier_chains', 0)
+    res.cov['requalification_requests_by_relation_of_the_new_set_to_the_sets_so_far'] = {
+        k[len('_requalification_'):]: v for k, v in sorted(agg.items()) if k.startswith('_requalification_')}
     res.cov['op_distribution'] = {k: v for k, v in sorted(agg.items()) if not k.startswith('_')}
     res.cov['nodes_per_history'] = [g.spec.created for g in gens]
     tags = {}
@@ -1038,33 +1457,67 @@ def check(pid, tier, manifest_rule):
     res.cov['largest_table'] = max(tags.items(), key=lambda kv: kv[1])[0] if tags else None
     res.cov['reserved_words'] = len(words)
     res.cov['builtins'] = len(builtins)
+    # several Lexicons in one process
+    stat = {}
+    for _, n in R.notes:
+        if n.startswith('# recycled=') or n.startswith('#placed ') or n.startswith('#early words='):
+            for kv in n.replace('#placed ', '').replace('#early ', '').lstrip('# ').split():
+                if '=' in kv: stat[kv.split('=')[0]] = int(kv.split('=')[1])
+    res.cov['lexicons_in_one_process'] = {
+        'histories (Lexicon incarnations) run': len(sc.instances),
+        'most Lexicons alive at once': sc.max_live,
+        'switches between Lexicons': sc.switches,
+        'interleaving chunk sizes (ops: how many chunks)': {str(k): v for k, v in sorted(sc.chunks.items())},
+        'lockstep rounds (the same chunk asked of a second Lexicon right after the first)': sc.lockstep_rounds,
+        'Lexicons constructed in place of a destroyed one': sum(1 for i in sc.instances if i['mode'] == 'renew'),
+        'blocks of a destroyed Lexicon handed out again to its successor': stat.get('recycled', 0),
+        'brand-new operands used at once by the successors': agg.get('_fresh_operands_used_at_once', 0),
+        'process-wide constants answered to two live Lexicons (#shared, all legitimate)': sum(1 for _, n in R.notes if n.startswith('#shared ')),
+    }
+    res.cov['operands_at_unusual_addresses'] = {
+        'address hints honoured by mmap': bool(stat.get('honoured', 0)),
+        'client-built type nodes placed far apart': stat.get('placed_far', 0),
+        'placed on the free store instead (hint refused)': stat.get('placed_fallback', 0),
+        'page offsets from the base (GiB)': [0, 0.000004, 2, 4, 4.000004, 32, 32.000004, 64, 64.000004, 96, 128, 256],
+        'requests over them (each twice, scrambled)': agg.get('_placed_requests', 0),
+    }
+    res.cov['use_during_static_initialisation'] = {
+        'spellings asked of a Lexicon before main()': stat.get('words', 0),
+        'of them process-wide constants, by constructor': {k[:-len('_constants')]: v for k, v in stat.items() if k.endswith('_constants')},
+        'assertions checked': sum(1 for l in out0.splitlines() if l.startswith('@early_')),
+        'assertions that are part of this statement': list(EARLY[pid]),
+    }
     res.cov['exhaustive'] = False
     for g in gens[:2]:
         k = min(len(g.lines) - 12, 400)
         res.sample({'ops': g.lines[k:k + 12], 'answers(impl = specification = model)': g.expect[k:k + 12]})
+    k = next((i for i in range(ncfg, len(flat) - 12) if sum(1 for l in flat[i:i + 12] if l.startswith('lexicon ')) >= 3), None)
+    if k is not None:
+        res.sample({'interleaved script': flat[k:k + 12], 'answers': want[k:k + 12]})
     res.assumptions += [
         'operands are live nodes of the same Lexicon and of the sort the C++ signature takes (client precondition; the probe rejects anything else)',
         'a sequence handed to get_product/get_sum(const Sequence&) is kept alive and unchanged by the client (DESIGN.md C01 Limits)',
         'util::string_pool is represented by its specification (one String per content, reserved words constant): that is C03',
         'reserved words and built-in names are found by execution over every u8 literal of src/impl.cxx and src/builtin.def (two Lexicons answer the same Identifier node / a type constant carries the name)',
+        'static initialisation order: the probe translation unit precedes libipr.a on the link line, so with GNU ld its initialisers run before any dynamic initialiser the library may have',
     ]
     return res.finish(info, rule=manifest_rule)
 
 
 def replay(pid, path):
-    words, builtins = load_config()
+    probe = C.build_harness(PROBE, 'asan')
+    alive, rc0, out0, err0 = boot(probe)
+    if not alive:
+        print('unifyprobe died during static initialisation (exit %d)\n%s' % (rc0, err0[-2000:]))
+        print('VIOLATION property=%s replay=%s' % (pid, path))
+        return 1
+    words, builtins = load_config(probe)
     ops = [l.strip() for l in open(path) if l.strip() and not l.startswith('#') and not l.startswith('correspondence:') and not l.startswith('theorem')]
     C.lean_build(['model_' + pid.lower()])
-    R = Runner(pid, words, builtins)
-    text = '\n'.join(ops) + '\n'
-    rc, out, err = C.run_exe(R.probe, [], text)
-    impl, failed = split_impl(out)
+    R = Runner(pid, words, builtins, probe)
+    rc, impl, failed, err, text = R.run_impl(ops)
     model = R.run_model(text)
-    spec, want = None, []
-    for l in ops:
-        if l == 'new' or spec is None:
-            spec = Spec(words, builtins)
-        want.append(spec.step(l))
+    want, specs, hist_of = spec_of_script(ops, words, builtins, with_specs=True)
     bad = False
     for i, l in enumerate(ops):
         if l.startswith('cfg'): continue
@@ -1072,10 +1525,20 @@ def replay(pid, path):
         m = model[i] if i < len(model) else '<none>'
         mark = '' if a == want[i] == m else '   <-- ' + ('violates the statement' if a != want[i] else 'differs from the model')
         bad = bad or bool(mark)
-        print('%-44s impl: %-8s required: %-8s model: %-8s%s' % (l[:44], a, want[i], m, mark))
+        print('%-3s %-44s impl: %-8s required: %-8s model: %-8s%s' % ('' if hist_of[i] is None else 'L%d' % hist_of[i], l[:44], a, want[i], m, mark))
+    early_bad = early_failures(pid, failed)
+    if early_bad:
+        print('use during static initialisation: ' + ' '.join(early_bad))
+        for _, n in R.notes:
+            if n.startswith('#early'): print(n)
+    def is_constant(idx, k):
+        names = specs[hist_of[idx]].names if 0 <= idx < len(ops) and hist_of[idx] is not None else []
+        return k < len(names) and names[k].tag == 'static'
+    foreign = R.shared_violation(ops, is_constant) if not bad else None
     if rc != 0:
         print(err[-2000:])
-    if bad or rc != 0 or failed:
+    if bad or rc != 0 or early_bad or foreign is not None or any(not a.startswith('@early_') for _, a in failed):
+        if foreign is not None: print('line %d: node %s was also answered to the live Lexicon in place %s' % foreign)
         print('VIOLATION property=%s replay=%s' % (pid, path))
         return 1
     print('replay: property holds on this input')
